@@ -1,9 +1,71 @@
 import Lean.Data.Json
-/-! Line-protocol handler for property C17 (model side of the correspondence). -/
+import SpoxModel.Model.Dispatch
+import SpoxModel.Generated.ResultType
+/-! Line-protocol handler for C17.
+
+    request  {"settings": null | [tp, cp], "op": "add" | … , "a": operand, "b": operand,
+              optional "xs": [ints], "ys": [ints]}
+    operand  ["var", d] | ["int", v] | ["float"] | ["bool", b] | ["np", d] | ["other"]
+    answer   {"err": "TypeError" | "OverflowError" | "InferenceError"}
+           | {"tree": "<expression>", "dtype": d, optional "vals": [[int | null]]}   (eval over xs × ys) -/
 namespace Drv.C17
-open Lean
+open Lean Dispatch
+
+def np : NpInfo := Generated.ResultType.info
+
+def parseOperand (j : Json) : Except String Operand := do
+  let a ← fromJson? (α := Array Json) j
+  match a.toList with
+  | [.str "var", d] => do pure (.var (← fromJson? (α := Nat) d))
+  | [.str "int", v] => do pure (.pyInt (← fromJson? (α := Int) v))
+  | [.str "float"] => pure .pyFloat
+  | [.str "bool", b] => do pure (.pyBool (← fromJson? (α := Bool) b))
+  | [.str "np", d] => do pure (.npScalar (← fromJson? (α := Nat) d))
+  | [.str "other"] => pure .other
+  | _ => throw "bad operand"
+
+def parseOp : String → Except String Op
+  | "add" => pure .add | "sub" => pure .sub | "mul" => pure .mul | "truediv" => pure .truediv
+  | "floordiv" => pure .floordiv | "neg" => pure .neg | "and_" => pure .and_ | "or_" => pure .or_
+  | "xor" => pure .xor | "not_" => pure .not_
+  | _ => throw "bad op"
+
+def render : Tree → String
+  | .arg i => s!"arg{i}"
+  | .cast to t => s!"Cast[{to}]({render t})"
+  | .constOf i dt => s!"Constant[{dt}:#{i}]"
+  | .zero dt => s!"Constant[{dt}:0]"
+  | .un op t => s!"{op.name}({render t})"
+  | .bin op l r => s!"{op.name}({render l},{render r})"
+
+def errName : Err → String
+  | .typeError => "TypeError" | .overflowError => "OverflowError" | .inferenceError => "InferenceError"
+
+def handleE (req : Json) : Except String Json := do
+  let settings : Option (Bool × Bool) ←
+    match req.getObjVal? "settings" with
+    | .ok (.arr #[tp, cp]) => do pure (some (← fromJson? (α := Bool) tp, ← fromJson? (α := Bool) cp))
+    | _ => pure none
+  let op ← parseOp (← req.getObjValAs? String "op")
+  let a ← parseOperand (← req.getObjVal? "a")
+  let b ← parseOperand (← req.getObjVal? "b")
+  match dispatch np settings op a b with
+  | .error e => pure (Json.mkObj [("err", errName e)])
+  | .ok (tree, d) =>
+      let base := [("tree", Json.str (render tree)), ("dtype", toJson d)]
+      match req.getObjValAs? (Array Int) "xs", req.getObjValAs? (Array Int) "ys" with
+      | .ok xs, .ok ys =>
+          let vals := xs.toList.map (fun x => Json.arr (ys.toList.map (fun y =>
+            match eval np a b x y tree with
+            | some (_, v) => toJson v
+            | none => Json.null)).toArray)
+          pure (Json.mkObj (base ++ [("vals", Json.arr vals.toArray)]))
+      | _, _ => pure (Json.mkObj base)
 
 /-- One request (a JSON value) in, one response (a JSON value) out. -/
-def handle (_req : Json) : Json := Json.mkObj [("error", "unimplemented")]
+def handle (req : Json) : Json :=
+  match handleE req with
+  | .ok j => j
+  | .error e => Json.mkObj [("error", e)]
 
 end Drv.C17
